@@ -130,6 +130,16 @@ def gen_case(rng, hier, knobs=None):
         transitions.append({'trigger': 'go%d' % rng.randint(0, 3), 'source': src, 'dest': dst,
                             'conditions': g.cbs(0.4), 'unless': g.cbs(0.3), 'prepare': g.cbs(0.3),
                             'before': g.cbs(0.3), 'after': g.cbs(0.3)})
+    if not opts['auto_transitions'] and rng.random() < knobs.get('p_to_named', 0.3):
+        # a user-defined trigger that merely *looks* like an automatic one (to_<state> / to_<attr>_<state>) and starts
+        # in one state only: not automatic (criterion "one source per state" fails), so it has to be exported, and the
+        # export must leave it alone
+        tgt = rng.choice(names)
+        name = ('to_%s_%s' % (opts['model_attribute'], tgt)) if (opts['model_attribute'] != 'state' and not hier) \
+            else 'to_%s' % tgt
+        transitions.append({'trigger': name, 'source': rng.choice(names), 'dest': rng.choice([tgt, tgt, rng.choice(names)]),
+                            'conditions': g.cbs(0.3), 'unless': g.cbs(0.2), 'prepare': g.cbs(0.3),
+                            'before': g.cbs(0.3), 'after': g.cbs(0.3)})
     truth = {}
     for t in transitions + [t for s in _walk(states) for t in s['transitions']]:
         for c in t['conditions']:
@@ -160,7 +170,7 @@ def gen_case(rng, hier, knobs=None):
             pool += all_names(sts)
             desc['mods'].append(['add_state', sts[0]] if len(sts) == 1 and rng.random() < 0.5 else ['add_states', sts])
         elif kind == 'add_transition':
-            t = {'trigger': rng.choice(trig + ['new%d' % rng.randint(0, 1)]),
+            t = {'trigger': rng.choice([x for x in trig if not x.startswith('to_')] + ['new%d' % rng.randint(0, 1)]),
                  'source': rng.choice(pool) if rng.random() < 0.85 else '*',
                  'dest': None if rng.random() < knobs.get('p_internal', 0.1) else rng.choice(pool),
                  'conditions': g.cbs(0.3), 'unless': g.cbs(0.2), 'prepare': g.cbs(0.2), 'before': g.cbs(0.3),
@@ -604,7 +614,9 @@ def check_faithful(exp, mk, machine, stage):
                 tuple(_lst(t, 'prepare')), tuple(_lst(t, 'before')), tuple(_lst(t, 'after')))
 
     def transitions(want, got, scope):
-        autos = exp.auto_names() if not scope else set()
+        # automatic transitions may be listed; when auto_transitions is off there are none, and a user trigger
+        # that is named like one is an ordinary transition
+        autos = exp.auto_names() if (not scope and desc['opts']['auto_transitions']) else set()
         want_n = [norm(t) for t in want]
         got_n = [norm(t) for t in got if t.get('trigger') not in autos]      # automatic ones may be listed
         internal_missing_dest = [t for t in got if 'dest' not in t]
@@ -682,7 +694,7 @@ def run_history(machine, history):
     return rec
 
 
-def check_roundtrip(exp, machine, mk, history, codec=None):
+def check_roundtrip(exp, machine, mk, history, codec=None, twin=None):
     """`Cls(markup=json round trip)`: identical markup, identical reactions.  Returns (failures, info)."""
     out = []
     info = {'rebuilt': False, 'markup_equal': False}
@@ -708,6 +720,14 @@ def check_roundtrip(exp, machine, mk, history, codec=None):
             bad('roundtrip.markup-differs', {'differences': [[p, a, b] for p, a, b in d[:6]]})
     rec1 = run_history(machine, history)
     info['record'] = rec1
+    if twin is not None:
+        # exporting (and every other observer) leaves the machine as it is: the original, whose markup was read
+        # after construction and after every modification, reacts like its twin that was never looked at
+        rec0 = run_history(twin, history)
+        if rec0 != rec1:
+            k = next(i for i, (a, b) in enumerate(zip(rec0, rec1)) if a != b)
+            bad('current.exported-original-differs-from-never-exported-twin',
+                {'step': k, 'never_exported_twin': rec0[k], 'original_after_export': rec1[k]})
     if m2 is not None:
         rec2 = run_history(m2, history)
         if rec1 != rec2:
